@@ -265,4 +265,21 @@ PROPS = {
         "level_note": "Partial: the theorem covers features without quotes/line breaks and LF-terminated rows; quoted feature cells, CR/CRLF and missing final newline are covered by the correspondence and the oracle only. Trusted: Coq kernel + vm_compute; csv-core modelled by a reference lexer.",
         "technique": "machine-checked proof in Coq (parse/render round trip of the reference CSV lexer) + checked model/code correspondence incl. malformed inputs",
     },
+    "C20": {
+        "theorems": ["c20_same_string_same_id", "c20_diff_string_diff_id", "c20_template_applies", "c20_line_cost", "c20_connector_sums"],
+        "check_targets": ["Check/C20Check.vo"],
+        "case_type": "c20case",
+        "report_fn": "c20_report",
+        "harness": "C20",
+        "n": {"quick": 600, "thorough": 30000},
+        "rule": "cases = generated MeCab descriptions: feature.def with 1-5 BIGRAM templates (literal tags, %L[i]/%R[i] and optional %L?[i]/%R?[i] references, a stray '%'), UNIGRAM lines; right-id.def / left-id.def with 2-5 ids (id 0 = BOS/EOS), 2-4 feature columns over {multi-byte tags, '*', letters, a cell with a space}, in file order or shuffled; model.def with one line per feature text drawn from the real expansions (incl. BOS/EOS pairs), unmatched texts, header lines, a unigram line; weights over {2, -3, 10, 0.5, -1.25, 0, 0.0, 7.75, -0.125, 100, -41} (dyadic decimals: exact in binary64), cost factors {1, 8, 100, 700, 800}; error stream: a gap among the ids, no id 0, id 0 not BOS/EOS, a malformed id line; the generated files are compiled with the real raw connector and every non-zero id pair is read through the conn_cost hook; non-trivial: at least two non-zero costs among non-zero id pairs",
+        "trusted_base": [
+            "the end-to-end statement is decided by the oracle, not proved; regex crate, str::parse::<f64> (weights are dyadic decimals, so the exact rational arithmetic of the oracle coincides with binary64), csv-core for the id-table rows are modelled/trusted",
+            "hypotheses of the property generated for: expansions contain no '/' and no 'BOS/EOS' text, one model.def line per feature text",
+        ],
+        "assumptions": ["one model.def line per feature text (with duplicates the last non-zero line wins in the implementation)"],
+        "level_text": "PARTIAL proof. The end-to-end statement (connection cost of the dictionary compiled from the generated bigram files = sum over applicable templates of -trunc(weight x factor) of the matching model.def line) is kept visible in Props/C20.v and decided on every run by an oracle that recomputes the defining sum in Coq (template parsing, expansion with optional references, exact rational truncation) from the MeCab description and compares it with the real pipeline generate_bigram_info -> RawConnector for every non-zero id pair, plus dense-id and error-reporting checks. Proved in Coq are the components: interning gives equal ids to equal strings and different ids to different strings (c20_same_string_same_id / c20_diff_string_diff_id), when a template applies (c20_template_applies), the line cost (c20_line_cost), and the connector's lane sum (c20_connector_sums, from C07's double-array theorem).",
+        "level_note": "Partial: component theorems + specification oracle; no end-to-end theorem over a model of generate_bigram_info. Trusted: Coq kernel + vm_compute.",
+        "technique": "machine-checked proof in Coq of the components (interning, template applicability, connector sum) + specification oracle evaluated in Coq against the real conversion pipeline",
+    },
 }
